@@ -289,6 +289,7 @@ pub fn text_presentable(p: &Program) -> bool {
             _ => true,
         }
     }
+    fn operand_ok(t: &Term) -> bool { match t { Term::Atom(a) => !a.contains([';', ':', '.', '<', '>', '=', '%', '#', '!', '/', '*', '+']), _ => true } }
     fn leaf(g: &Goal) -> bool { !matches!(g, Goal::And(_) | Goal::Or(_) | Goal::Not(_) | Goal::Time(_)) }
     fn goal_ok(g: &Goal) -> bool {
         match g {
@@ -296,7 +297,8 @@ pub fn text_presentable(p: &Program) -> bool {
             Goal::Not(x) | Goal::Time(x) => matches!(**x, Goal::Call(..)) && goal_ok(x),
             Goal::Call(n, a) => atom_ok(n) && !crate::render::RESERVED.contains(&n.as_str()) && a.iter().all(term_ok),
             Goal::BuiltIn(_, a) => !a.is_empty() && a.iter().all(term_ok),
-            Goal::Unify(a, b) | Goal::Compare(_, a, b) => term_ok(a) && term_ok(b),
+            // an operand of an infix stands outside any parentheses, where ; : . < > = % # also have a meaning
+            Goal::Unify(a, b) | Goal::Compare(_, a, b) => term_ok(a) && term_ok(b) && operand_ok(a) && operand_ok(b),
             g => leaf(g),
         }
     }
